@@ -221,6 +221,16 @@ def generate(seed: int, config: str, tier: str) -> Dict[str, Any]:
             if ss:
                 p, k = frng.choice(ss)
                 faults["storeerr"].append([p, k, frng.choice(["store", "store", "key", "index", "type", "value"])])
+    elif faulty and frng.random() < 0.3:
+        # documents whose item access fails at one place: an evaluation dies half-way, the next ones must not care
+        from jpsim.store import sites
+
+        wraps = [{"mode": frng.choice(["all", "depths"]), "depths": sorted({frng.randrange(3) for _ in range(2)})} for _ in docs]
+        di = frng.randrange(len(docs))
+        ss = sites(docs[di], f"d{di}")
+        if ss:
+            p, k = frng.choice(ss)
+            faults["storeerr"].append([p, k, frng.choice(["store", "key", "index", "type", "value"])])
     plan = {"kind": kind, "docs": docs, "wraps": wraps, "ctxs": ctxs, "queries": queries, "envs": envs, "clients": clients, "faults": faults}
     knobs = {"p_sched": rng.choice([0.3, 0.5, 0.7]), "p_get": rng.choice([0.3, 0.6]), "p_quantum": rng.choice([0.5, 0.8, 0.95])}
     return {"property": PROPERTY, "config": config, "seed": seed, "knobs": knobs, "plan": plan}
@@ -295,13 +305,8 @@ class World:
                 self.envs[e] = jsonpath.JSONPathEnvironment(filter_caching=False)
             else:
                 self.envs[e] = jsonpath.DEFAULT_ENV
-        self.docs: List[Any] = []
-        for i, d in enumerate(plan["docs"]):
-            d2 = copy.deepcopy(d)
-            if store is not None:
-                w = plan["wraps"][i]
-                d2 = wrap(d2, store, w["mode"], w["depths"], 0, f"d{i}")
-            self.docs.append(d2)
+        self.store = store
+        self.docs: List[Any] = [self.fresh_doc(i) for i in range(len(plan["docs"]))]
         self.ctxs: List[Any] = [copy.deepcopy(c) for c in plan["ctxs"]]
         # sequential specification: an environment of its own with caching off, a fresh compile per evaluation
         self._ref_env = jsonpath.JSONPathEnvironment(filter_caching=False)
@@ -346,6 +351,14 @@ class World:
         self.retained: List[Tuple[Any, Any, str]] = []
         self.has_cacheable = [self._cacheable(self.pristine[qi]) for qi in range(len(self.texts))]
         self.uses_regex_fn = [("match(" in t or "search(" in t) for t in self.texts]
+
+    def fresh_doc(self, i: int) -> Any:
+        """A new copy of document *i*, wrapped (same failing sites) exactly like the shared one."""
+        d2 = copy.deepcopy(self.plan["docs"][i])
+        if self.store is not None:
+            wr = self.plan["wraps"][i]
+            d2 = wrap(d2, self.store, wr["mode"], wr["depths"], 0, f"d{i}")
+        return d2
 
     @staticmethod
     def _selinfo(c: Any) -> Any:
@@ -593,7 +606,7 @@ def _sync_op(w: World, ctx: Ctx, cid: int, op: List[Any], yield_point: Any = Non
         for k in range(n):
             dj = dis[k % len(dis)]
             r = w.refs[(qi, dj, ci)]
-            tmp = copy.deepcopy(w.plan["docs"][dj])
+            tmp = w.fresh_doc(dj)
             got5: List[Any] = []
             exc5: Optional[str] = None
             try:
@@ -713,9 +726,21 @@ def _advance(w: World, ctx: Ctx, cid: int, h: _Handle) -> bool:
     return True
 
 
+def _sync_store(plan: Dict[str, Any], ctx: Ctx) -> Optional[Store]:
+    """A (non-suspending) store for the synchronous configurations when documents are wrapped."""
+    if all(wr["mode"] == "none" for wr in plan["wraps"]) and not plan["faults"]["storeerr"]:
+        return None
+    store = Store(ctx.choose)
+    for f in plan["faults"]["storeerr"]:
+        store.failing[(f[0], f[1])] = f[2] if len(f) > 2 else "store"
+        ctx.count("fault.storeerr.configured")
+    return store
+
+
 def _run_iter(spec: Dict[str, Any], ctx: Ctx) -> None:
     plan = spec["plan"]
-    w = World(plan, ctx, None)
+    store = _sync_store(plan, ctx)
+    w = World(plan, ctx, store)
     scripts = plan["clients"]
     pcs = [0] * len(scripts)
     handles: List[Optional[_Handle]] = [None] * len(scripts)
@@ -763,6 +788,8 @@ def _run_iter(spec: Dict[str, Any], ctx: Ctx) -> None:
             ctx.state("iter", op[1], "iterate")
         w.check_world(f"client {c} op {op[0]}", _touched(op, w))
     w.check_world("the whole history", full=True)
+    if store is not None:
+        ctx.count("fault.storeerr.fired", store.errors_fired)
     # everything must have completed
     if any(h is not None for h in handles) or any(pcs[c] < len(scripts[c]) for c in range(len(scripts))):
         raise Violation("C09.completes", f"clients still running after {total} scheduler steps", "C09.completes:iter")
@@ -920,7 +947,8 @@ def _run_tasks(spec: Dict[str, Any], ctx: Ctx) -> None:
 def _run_threads(spec: Dict[str, Any], ctx: Ctx) -> None:
     plan = spec["plan"]
     knobs = spec.get("knobs", {})
-    w = World(plan, ctx, None)
+    store = _sync_store(plan, ctx)
+    w = World(plan, ctx, store)
     scripts = plan["clients"]
     trace_dir = os.path.dirname(os.path.abspath(jsonpath.__file__))
     errors: List[BaseException] = []
